@@ -13,7 +13,7 @@ open Parser Op C04 C05
 
 variable {gb : Nat → Nat} {d : DType} {f : AFile}
 
-theorem drain_exact (L : Matcher) (hL : LazyOf L) (limit : Nat) (hlim : 1 ≤ limit) (h : f.WF gb d)
+theorem drain_exact (L : Matcher) (hL : WeakLazyOf L) (limit : Nat) (hlim : 1 ≤ limit) (h : f.WF gb d)
     (fuel : Nat) (p : Pos) (σ : St) (acc : List Item) (hinv : Inv gb d f p σ []) (hal : Al σ)
     (hfuel : (remItems d f limit p).length < fuel) :
     ∃ σ', drainIter L gb d limit fuel σ acc = (acc.reverse ++ remItems d f limit p, none, σ') ∧
@@ -37,7 +37,7 @@ theorem drain_exact (L : Matcher) (hL : LazyOf L) (limit : Nat) (hlim : 1 ≤ li
 theorem meas_done_of_le {p : Pos} (h : meas f p ≤ 0) : p = .done := by
   cases p <;> simp only [meas] at h <;> first | rfl | omega
 
-theorem drain_partial (L : Matcher) (hL : LazyOf L) (limit : Nat) (hlim : 1 ≤ limit) (h : f.WF gb d)
+theorem drain_partial (L : Matcher) (hL : WeakLazyOf L) (limit : Nat) (hlim : 1 ≤ limit) (h : f.WF gb d)
     (t : Bits) (fuel : Nat) (p : Pos) (σ : St) (acc : List Item) (hinv : Inv gb d f p σ t) (hal : Al σ) :
     ∃ its p' σ', drainIter L gb d limit fuel σ acc = (acc.reverse ++ its, none, σ') ∧
       Inv gb d f p' σ' t ∧ Al σ' ∧ meas f p' ≤ meas f p ∧
